@@ -670,7 +670,9 @@ def arrays_for(pal, L, full):
     """list of (values, as_ndarray) of length L"""
     ex = EXTRA[pal]
     if full:
-        out = [(w, True) for w in float_windows(pal, L, (1,))]
+        # L == 1: every float; L >= 2: every second cyclic window (every float occurs in an array,
+        # in first or second position)
+        out = [(w, True) for w in float_windows(pal, L, (1,))[::(1 if L == 1 else 2)]]
         out += [([_INTS[(k + i) % 6] for i in range(L)], True) for k in range(6)]
     else:
         out = [([ex[0], -1.5, 0.1, 1.0 / 3.0][:L], True),
